@@ -1,6 +1,8 @@
 """C18 — cell-veto proposals.  D: Walker.tla (alias table: row mass, cell probability, zero-rate cells);  R: every rate
 vector on the real Walker (all rows x all interior draws; scaled by 2^-20, 1, 2^20);  T: cell-veto records of real runs
-(target cell = translate(active cell, sampled offset), bound used, walker sign) in checks/runlevel.py."""
+(target cell = translate(active cell, sampled offset), bound used, walker sign) in checks/runlevel.py;  R (handler): the real
+LeafUnitCellVetoEventHandler on a ring of six cells with scripted stored bounds (pairs of Walker.tla vectors, non-positive bound
+where a vector has a zero), both signs of the charge factor: per-offset masses, target cell, confirmation bound, proposal time."""
 from harness import opcheck
 from harness.build import Scratch
 
@@ -14,5 +16,23 @@ def run(chk):
                                        keyfn=lambda f: "endpoint:zero-rate-selected" if f["what"].startswith("endpoint") else "replay:" + f["what"])
         if tab:
             chk.sample(tab["vectors"][len(tab["vectors"]) // 3])
+            # the handler around the table: both signs of the charge factor, stored bounds scripted from pairs of model vectors
+            import json
+            import os
+            from harness.build import run_py
+            tpath = os.path.join(sc.dir, "table_Walker.json")
+            r = run_py(sc, ["-m", "harness.drive_lifting", "veto", tpath, "150" if chk.tier == "quick" else "2000"], timeout=1500)
+            if r.returncode != 0 and opcheck._is_machinery(r.stderr):
+                chk.machinery("cell-veto handler driver failed to start: " + r.stderr[-800:])
+            elif r.returncode != 0:
+                chk.violation("veto:exception", "real cell-veto handler raised while proposing from scripted bounds", r.stderr[-3000:])
+            else:
+                v = json.loads(r.stdout)
+                chk.evaluations += v["evaluations"]
+                chk.notes["cell_veto_handler_proposals_replayed"] = v["evaluations"]
+                if not v["evaluations"]:
+                    chk.machinery("vacuous: no cell-veto proposal was replayed")
+                for f in v["fails"]:
+                    chk.violation("veto:" + f["what"], "real cell-veto handler differs from Walker.tla / the stored bounds: " + f["detail"], f)
         from checks import runlevel
         runlevel.run_for(chk, "C18")
